@@ -252,6 +252,20 @@ def gen(seed, tier):
                 out.append("geo eval %d @m:%d:%s" % (o, i, fr(g.q(F(1, 10), F(9, 10), 40))))
         g.stats["negative-x-scale"] += 1
         distinct += 1
+    # --- passive torque-angle curve over an angle range wider than 1.1 rad with |stiffnessAtOneNormTorque| <= 1
+    # (admissible: the documented bound is 1.1 / range): defect D21, the toe section ran backwards
+    for j in range(4 if thorough else 2):
+        rng = g.q(F(3, 2), 3, 30)
+        a0 = g.q(-1, 1, 20)
+        sgn = g.r.choice([1, -1])
+        k1 = g.q(F(115, 100), F(19, 10), 30) / rng          # 1.15/range .. 1.9/range  (< 1 for the wider ranges)
+        k0 = g.q(F(1, 100), F(1, 2), 30) / rng
+        out.append("case c18widepassive_%d" % j)
+        out.append("geo new tp5 %s %s %s %s %s" % (fr(a0), fr(a0 + sgn * rng), fr(sgn * k0), fr(sgn * k1), fr(g.curv())))
+        out.append("geo dom")
+        eval_block(g, out, 2, orders_hi=False)
+        g.stats["passive-torque-angle:wide-range"] += 1
+        distinct += 1
     # --- Gaussian curve folding over itself
     for j in range(4 if thorough else 2):
         sd = g.q(F(2, 10), F(1, 2))
